@@ -315,7 +315,7 @@ func TestC09Chains(t *testing.T) {
 	for _, applied := range []bool{false, true} {
 		li.In.Plan = func(c *Call) Decision {
 			if c.Kind == OpUpload && c.Key == "_roots.pem" {
-				return Decision{Apply: applied, Err: errInjected}
+				return Decision{Apply: applied, Err: rotatingInjectedErr()}
 			}
 			return decideOK
 		}
